@@ -2,6 +2,9 @@ import Gengo.Model.Loader
 import Gengo.Lemmas.WalkInv
 import Gengo.Lemmas.WalkDesc
 import Gengo.Generated.Facts
+import Gengo.Lemmas.WalkIso
+import Gengo.Lemmas.FactsCheckSound
+import Gengo.Driver.Universe
 /-! # C01 – the parsed type universe is structurally faithful to the Go type checker -/
 namespace Gengo.C01
 open Gengo Gengo.Universe
@@ -56,11 +59,12 @@ theorem Present.mono {F : Facts} {v2 : Bool} {u u' : U} {ob : GObj} (h : Present
   obtain ⟨t', h4, _, h6⟩ := hg.objs o t h2
   exact ⟨o, t', hg.idx _ _ h1, h4, by rw [h6 h3]; exact h3⟩
 
-/-- a non-generic named type whose underlying node is an unnamed type node (what go/types guarantees) -/
+/-- a non-generic named type whose underlying node is a basic/named/map/slice node or an unnamed type node (what go/types
+guarantees; the driver's `hyp` line checks it per case) -/
 def PlainNamed (F : Facts) (v2 : Bool) (ob : GObj) : Prop :=
   ob.kind = .typeName ∧ ∃ und ms origUnd, F.node ob.ty = .named und ms [] origUnd ∧
     (isAliasUnder (F.node und) = true ∨ ∃ K kids, shape v2 (F.node und) = some (K, kids)) ∧
-    (∃ K kids, shape v2 (F.node origUnd) = some (K, kids))
+    (isAliasUnder (F.node und) = false → (v2 && isStructOrIface (F.node und)) = true → ∃ K kids, shape v2 (F.node origUnd) = some (K, kids))
 
 theorem addObj_present (bt : List Builtin) (F : Facts) (v2 : Bool) (fuel : Nat) (u u' : U) (ob : GObj)
     (hp : PlainNamed F v2 ob) (h : WalkInv.Inv bt u) (hf : addObj bt F v2 (fuel + 1) u ob = some u') : Present F v2 u' ob := by
@@ -215,12 +219,139 @@ theorem demo_wellFormed : WellFormed demoFacts false := by
   | 0 =>
     simp [demoFacts] at h
     obtain ⟨rfl, _, _, rfl⟩ := h
-    exact ⟨.inr ⟨_, _, rfl⟩, ⟨_, _, rfl⟩⟩
+    exact ⟨.inr ⟨_, _, rfl⟩, fun _ _ => ⟨_, _, rfl⟩⟩
   | 1 => simp [demoFacts] at h
   | 2 => simp [demoFacts] at h
   | _ + 3 => simp [demoFacts] at h
 
 /-- the walk of the cyclic type succeeds, so the premises of the theorems above are met by a real run -/
 example : (walk [] demoFacts false 8 {} 0 none).isSome = true := by decide
+
+
+/-! ### the object found under a name was filled from the node of that name (Lemmas/WalkName.lean, WalkIso.lean) -/
+open Gengo.WalkName Gengo.WalkIso
+
+/-- (regenerated fact) every entry of the builtins tables the loaders run with has a kind -/
+theorem generated_tables_have_kinds (t : List (String × String × String × String)) : BtKinds (Gengo.Driver.Universe.builtinsOf t) := by
+  intro b hb
+  simp only [Gengo.Driver.Universe.builtinsOf, List.mem_map] at hb
+  obtain ⟨⟨k, v, n, kd⟩, _, rfl⟩ := hb
+  simp only [Gengo.Driver.Universe.kindOfStr]
+  split
+  · decide
+  · split
+    · decide
+    · split <;> decide
+
+/-- **lookup_faithful_v2**: what a v2 universe returns for the name `n` – after any sequence of incremental loads – is
+an object that, if it was filled, was filled from a node that `walkType` files under `n` (the node go/types prints as
+`n`; for a defined type over a struct, …: its underlying node; for a method: its signature), and it says what that
+node says.  So the universe's answer for a name is the type checker's answer for the type of that name. -/
+theorem lookup_faithful_v2 (w : World) (hng : NoGenerics w.facts) (hwf : WellFormed w.facts w.v2) (hbt : BtKinds w.bt)
+    (req : List Str) (ms : List (List Str)) (a st : LState) (h1 : newUniverseV2 w req = some a) (h2 : loadsV2 w a ms = some st)
+    (n : Name) (o : Nat) (ob : Obj) (g : Nat) (hl : AL.lookup n st.u.types = some o) (hob : st.u.objs[o]? = some ob)
+    (hs : ob.src = some g) : NameFor w.facts w.v2 n g ∧ Desc w.facts w.v2 st.u ob g := by
+  have hf := loadsV2_faithful w hng hwf hbt req ms a st h1 h2
+  exact ⟨found_under_its_name ⟨hf.1.1, hf.2⟩ n o ob g hl hob hs, described hf.1 o ob g hob hs⟩
+
+/-- **lookup_faithful_v1**: the same for the v1 `Builder` (`FindTypes`, then any sequence of `AddDirTo`) -/
+theorem lookup_faithful_v1 (w : World) (hng : NoGenerics w.facts) (hwf : WellFormed w.facts w.v2) (hbt : BtKinds w.bt)
+    (req : List Str) (ps : List Str) (a st : LState) (h1 : findTypesV1 w req = some a) (h2 : addDirsV1 w a ps = some st)
+    (n : Name) (o : Nat) (ob : Obj) (g : Nat) (hl : AL.lookup n st.u.types = some o) (hob : st.u.objs[o]? = some ob)
+    (hs : ob.src = some g) : NameFor w.facts w.v2 n g ∧ Desc w.facts w.v2 st.u ob g := by
+  have hf := addDirsV1_faithful w hng hwf hbt req ps a st h1 h2
+  exact ⟨found_under_its_name ⟨hf.1.1, hf.2⟩ n o ob g hl hob hs, described hf.1 o ob g hob hs⟩
+
+/-- the naming half needs no restriction on generics: through `walkType` itself, for any facts -/
+theorem walk_files_under_the_right_name (bt : List Builtin) (F : Facts) (v2 : Bool) (hbt : BtKinds bt) (fuel : Nat) (u u' : U)
+    (g o : Nat) (hi : WalkInv.Inv bt u) (hs : SN F v2 u) (hw : walk bt F v2 fuel u g none = some (u', o)) : SN F v2 u' :=
+  walk_sn bt F v2 hbt fuel u g none u' o hi hs (fun _ h => by cases h) hw
+
+
+/-- **hypotheses_checked_per_case**: the model driver answers the `hyp` line of a correspondence case with the three
+executable checks of `Model/FactsCheck`; when they say yes, the facts the driver's loaders run on (`world st`) meet the
+hypotheses of the theorems above – so the evidence file counts the generated programs the theorems actually speak about -/
+theorem hypotheses_checked_per_case (st : Gengo.Driver.Universe.St) (hs : st.strs.size ≤ st.nodes.size) :
+    (FactsCheck.noGenericsB ⟨st.nodes, st.strs⟩ = true → NoGenerics (Gengo.Driver.Universe.world st).facts) ∧
+    (FactsCheck.wellFormedB st.v2 ⟨st.nodes, st.strs⟩ = true → WellFormed (Gengo.Driver.Universe.world st).facts (Gengo.Driver.Universe.world st).v2) ∧
+    (FactsCheck.consistentB st.v2 ⟨st.nodes, st.strs⟩ = true → Consistent (Gengo.Driver.Universe.world st).facts (Gengo.Driver.Universe.world st).v2) ∧
+    BtKinds (Gengo.Driver.Universe.world st).bt :=
+  ⟨FactsCheck.noGenericsB_sound ⟨st.nodes, st.strs⟩, FactsCheck.wellFormedB_sound st.v2 ⟨st.nodes, st.strs⟩,
+    FactsCheck.consistentB_sound st.v2 ⟨st.nodes, st.strs⟩ hs, generated_tables_have_kinds _⟩
+
+/-! non-vacuity of the naming and consistency hypotheses: the cyclic demo program meets them -/
+def nT : Name := ⟨['p'], ['T']⟩
+def nS : Name := ⟨[], demoFacts.str 1⟩
+def nP : Name := ⟨[], ['*','p','.','T']⟩
+def nI : Name := ⟨[], ['i','n','t']⟩
+
+theorem demo_nameFor {n : Name} {g : Nat} (h : NameFor demoFacts false n g) :
+    (g = 1 ∧ (n = nT ∨ n = nS)) ∨ (g = 2 ∧ n = nP) ∨ (3 ≤ g ∧ n = nI) := by
+  cases h with
+  | self g hal =>
+    match g with
+    | 0 =>
+      rcases hal with ⟨K, kids, hsh⟩ | ⟨und, ms, tps, ou, hh, ha⟩
+      · simp [demoFacts, shape] at hsh
+      · simp [demoFacts] at hh; obtain ⟨rfl, _⟩ := hh; simp [demoFacts, isAliasUnder] at ha
+    | 1 => exact .inl ⟨rfl, .inr (by decide)⟩
+    | 2 => exact .inr (.inl ⟨rfl, by decide⟩)
+    | k + 3 => exact .inr (.inr ⟨by omega, by show nameOf false ['i','n','t'] = _; decide⟩)
+  | basic hn =>
+    match g with
+    | 0 => simp [demoFacts] at hn
+    | 1 => simp [demoFacts] at hn
+    | 2 => simp [demoFacts] at hn
+    | k + 3 => simp [demoFacts] at hn; subst hn; exact .inr (.inr ⟨by omega, rfl⟩)
+  | @under g' und ou ms tps hn ha hs =>
+    match g' with
+    | 0 => simp [demoFacts] at hn; obtain ⟨rfl, _⟩ := hn; exact .inl ⟨rfl, .inl (by decide)⟩
+    | 1 => simp [demoFacts] at hn
+    | 2 => simp [demoFacts] at hn
+    | k + 3 => simp [demoFacts] at hn
+  | orig hn ha hs => simp at hs
+  | @method g' und ou ms tps m hn hm =>
+    match g' with
+    | 0 => simp [demoFacts] at hn; obtain ⟨_, rfl, _⟩ := hn; cases hm
+    | 1 => simp [demoFacts] at hn
+    | 2 => simp [demoFacts] at hn
+    | k + 3 => simp [demoFacts] at hn
+  | @imethod g' ms m hn hm =>
+    match g' with
+    | 0 => simp [demoFacts] at hn
+    | 1 => simp [demoFacts] at hn
+    | 2 => simp [demoFacts] at hn
+    | k + 3 => simp [demoFacts] at hn
+
+theorem demo_resName (c : Nat) (h1 : ∀ t, demoFacts.node c ≠ .alias t) (h2 : ∀ nm, demoFacts.node c ≠ .basic nm) :
+    KidEq demoFacts false c c := ⟨_, .byName h1 h2, .byName h1 h2⟩
+
+theorem demo_consistent : Consistent demoFacts false := by
+  intro n g1 g2 h1 h2
+  have e11 : NodeEq demoFacts false 1 1 := by
+    unfold NodeEq
+    simp only [demoFacts]
+    exact .cons ⟨rfl, rfl, rfl, demo_resName 2 (by intro t h; simp [demoFacts] at h) (by intro t h; simp [demoFacts] at h)⟩ .nil
+  have e22 : NodeEq demoFacts false 2 2 := by
+    unfold NodeEq
+    simp only [demoFacts]
+    exact demo_resName 0 (by intro t h; simp [demoFacts] at h) (by intro t h; simp [demoFacts] at h)
+  have e33 : ∀ a b, 3 ≤ a → 3 ≤ b → NodeEq demoFacts false a b := by
+    intro a b ha hb
+    obtain ⟨a', rfl⟩ : ∃ a', a = a' + 3 := ⟨a - 3, by omega⟩
+    obtain ⟨b', rfl⟩ : ∃ b', b = b' + 3 := ⟨b - 3, by omega⟩
+    unfold NodeEq
+    simp [demoFacts]
+  rcases demo_nameFor h1 with ⟨rfl, hn1⟩ | ⟨rfl, hn1⟩ | ⟨hg1, hn1⟩ <;>
+    rcases demo_nameFor h2 with ⟨rfl, hn2⟩ | ⟨rfl, hn2⟩ | ⟨hg2, hn2⟩
+  · exact e11
+  · exfalso; subst hn2; rcases hn1 with h | h <;> exact absurd h (by decide)
+  · exfalso; subst hn2; rcases hn1 with h | h <;> exact absurd h (by decide)
+  · exfalso; subst hn1; rcases hn2 with h | h <;> exact absurd h (by decide)
+  · exact e22
+  · exfalso; subst hn1; exact absurd hn2 (by decide)
+  · exfalso; subst hn1; rcases hn2 with h | h <;> exact absurd h (by decide)
+  · exfalso; subst hn1; exact absurd hn2 (by decide)
+  · exact e33 _ _ hg1 hg2
 
 end Gengo.C01
